@@ -90,14 +90,10 @@ func check(c Case) (out outcome, err error) {
 			continue // message without a source echo
 		}
 		rest := e[:m[0]]
-		// The echo follows the last ":\n"; it may span several lines (newlines inside strings and comments
-		// do not start a new "current line"). Any suffix of the echo must be part of the input.
-		i := strings.LastIndex(rest, ":\n")
-		if i < 0 {
-			continue
-		}
-		if echo := rest[i+2:]; !strings.Contains(in, echo) {
-			return out, fmt.Errorf("input %q: error message echoes %q which is not part of the input: %q", c.Input, echo, e)
+		// The echo may span several lines (newlines inside strings and comments do not start a new
+		// "current line"); its last line, at least, is a piece of the input.
+		if last := rest[strings.LastIndexByte(rest, '\n')+1:]; !strings.Contains(in, last) {
+			return out, fmt.Errorf("input %q: error message echoes %q which is not part of the input: %q", c.Input, last, e)
 		}
 	}
 	if len(errs) > 0 || cont {
